@@ -808,8 +808,6 @@ func (b *BaseStore) LoadFromSnapshot(ctx context.Context) error {
 		}
 	}
 
-	b.recalculateReplicationMax(maxClock)
-
 	var headsCids []cid.Cid
 	for _, h := range header.Heads {
 		headsCids = append(headsCids, h.GetHash())
@@ -837,6 +835,9 @@ func (b *BaseStore) LoadFromSnapshot(ctx context.Context) error {
 	if _, err = b.OpLog().Join(log, -1); err != nil {
 		return fmt.Errorf("unable to join log: %w", err)
 	}
+
+	// the log is complete again: progress and max follow the merged log
+	b.recalculateReplicationStatus(maxClock)
 
 	if err := b.updateIndex(ctx); err != nil {
 		return fmt.Errorf("unable to update index: %w", err)
